@@ -1,29 +1,31 @@
 (* C01 -- A reaction reported as solved is balanced in every element and in charge.
-   Full statement: every solved row r of a completed run has bal O (rxn r) = true (which, by
-   C04_good_means_equal_compositions and C07, is equality of the true compositions).
-   It is FALSE of the faithful model: the reagent post-processing overwrites a validated
-   reaction and the final validation pass never re-examines solved rows (C01_refuted, replayed
-   on the implementation by the check).  What holds (C01_partial): every solved row was found
-   balanced by the validator on exactly the reaction it returns, unless post-processing
-   replaced a validated reaction of a rule-based / mcs-based row. *)
+   FULL statement, proved for every oracle, database, threshold and input list, on the model of the
+   (repaired) pipeline: every solved row r of a completed run has bal O (rxn r) = true, i.e. the comparator
+   finds the two sides of exactly the reaction the row returns balanced; by C07 (Balance <=> equal
+   compositions; decompose exact for all 118 elements and charge) that is true element-and-charge balance.
+   History: the pinned tree violated the property -- the reagent post-processing overwrote a validated
+   reaction with a template output that may be unbalanced, and the final validation never re-examines
+   solved rows (validation-set row 4098, KMnO4 template).  Repaired in /repo by a fix: commit (a row whose
+   validated reaction a template replaced falls back to it unless the reaction it carries after the second
+   rule-based run is found balanced); the model follows the repaired code (stage `restore`).  The old
+   design is kept below as C01_old_design_refuted. *)
 From Coq Require Import String ZArith List Bool.
 From SynRBL Require Import Base.Dict Model.Comp Model.Matcher Model.Pipeline
   Proofs.PipelineProofs Proofs.RowLocal Proofs.Balanced Proofs.RunLevel.
 Import ListNotations.
 Open Scope string_scope.
 
-Theorem C01_partial : forall O db ban fuel t tmsg ins rows st,
+Theorem C01_solved_rows_are_balanced : forall O db ban fuel t tmsg ins rows st,
   run O db ban fuel t tmsg ins = Done (rows, st) ->
-  Forall2 (fun s r =>
-    solved r = true ->
-    bal O (rxn r) = true \/
-    (solved (before_pp O db ban fuel (fresh 0 s)) = true /\
-     sby (before_pp O db ban fuel (fresh 0 s)) <> Some M_INPUT /\
-     pp O (rxn (before_pp O db ban fuel (fresh 0 s))) <> None)) (admitted O ins) rows.
+  Forall2 (fun s r => solved r = true -> bal O (rxn r) = true) (admitted O ins) rows.
 Proof. exact run_solved_validated. Qed.
 
-(* the refutation: an imputed, validated reaction X>>W.M is replaced by a template output X>>Z
-   that the comparator does not find balanced, and the row stays solved *)
+(* the same, per row *)
+Theorem C01_per_row : forall O db ban fuel i s,
+  solved (F O db ban fuel (fresh i s)) = true -> bal O (rxn (F O db ban fuel (fresh i s))) = true.
+Proof. exact solved_rows_validated. Qed.
+
+(* an imputed, validated reaction X>>W.M whose template output X>>Z the comparator does not find balanced *)
 Definition Obad : oracles :=
   {| strip := fun s => s; parse_ok := fun _ => true;
      decomp := fun s => if String.eqb s "X" then [("C",1);("H",4)]%Z else if String.eqb s "W.M" then [("C",1);("H",4)]%Z
@@ -32,12 +34,17 @@ Definition Obad : oracles :=
      mcs_state := fun _ => (false, ""); impute := fun _ => ImpOk "M" ["r"];
      pp := fun s => if String.eqb s "X>>W.M" then Some "X>>Z" else None;
      confidence := fun _ _ => 1%Z |}.
-Theorem C01_refuted : exists O db ban fuel t tmsg ins rows st r,
-  run O db ban fuel t tmsg ins = Done (rows, st) /\ In r rows /\ solved r = true /\ bal O (rxn r) = false.
-Proof.
-  exists Obad, [], [], 10, 0%Z, "m", ["X>>W"].
-  eexists. eexists. eexists. split; [vm_compute; reflexivity|]. split; [left; reflexivity|]. split; reflexivity.
-Qed.
+(* non-vacuity of the repaired pipeline on that oracle: the row falls back to the validated reaction *)
+Example C01_example : exists rows st,
+  run Obad [] [] 10 0%Z "m" ["X>>W"] = Done (rows, st) /\ map (fun r => (rxn r, solved r, bal Obad (rxn r))) rows = [("X>>W.M", true, true)].
+Proof. eexists. eexists. split; vm_compute; reflexivity. Qed.
+(* the pinned tree's last stages (no fall-back): the same row stayed solved with the unbalanced template output *)
+Definition F_old (O : oracles) (db : list rule) (ban : list string) (fuel : nat) (r : row) : row :=
+  validate O M_MCS true true (Some FINAL_MSG) (rb_row O db ban fuel (post_process O (before_pp O db ban fuel r))).
+Theorem C01_old_design_refuted :
+  let r := F_old Obad [] [] 10 (fresh 0 "X>>W") in solved r = true /\ rxn r = "X>>Z" /\ bal Obad (rxn r) = false.
+Proof. repeat split; vm_compute; reflexivity. Qed.
 
-Print Assumptions C01_partial.
-Print Assumptions C01_refuted.
+Print Assumptions C01_solved_rows_are_balanced.
+Print Assumptions C01_per_row.
+Print Assumptions C01_old_design_refuted.
